@@ -137,7 +137,7 @@ def load_known():
         return json.load(f)
 
 
-def run_property(pid, tier, rules, meta, controls=()):
+def run_property(pid, tier, rules, meta, controls=(), negatives=()):
     """rules: list of (rule_name, fn(ctx) -> iterable[Ob], floor).  Returns exit code."""
     t0 = time.time()
     seed = int(os.environ.get('VERIF_SEED', '0') or 0)
@@ -178,6 +178,22 @@ def run_property(pid, tier, rules, meta, controls=()):
             else:
                 control_results.append({'control': c, 'result': 'MISSED'})
                 broken.append('positive control %s was not detected by the quick check of %s' % (c, pid))
+    if negatives and os.environ.get('VERIF_IN_CONTROL') != '1':
+        for c in negatives:
+            pth = os.path.join(V, c)
+            env = dict(os.environ)
+            env['VERIF_IN_CONTROL'] = '1'
+            env['MUT_LINES'] = '3'
+            r = subprocess.run([os.path.join(V, 'bin/mutant_run.sh'), pth, pid], env=env, stdout=subprocess.PIPE, stderr=subprocess.STDOUT)
+            out = r.stdout.decode(errors='replace')
+            if 'PATCH-DOES-NOT-APPLY' in out:
+                control_results.append({'negative_control': c, 'result': 'not-applicable (patch does not apply to the current tree)'})
+            elif '== %s exit=0' % pid in out:
+                control_results.append({'negative_control': c, 'result': 'silent'})
+            else:
+                rule_line = [l.strip() for l in out.splitlines() if l.strip().startswith('rule=')]
+                control_results.append({'negative_control': c, 'result': 'FALSE-ALARM', 'by': rule_line[:2]})
+                broken.append('negative control %s (behaviour-preserving refactoring) made the quick check of %s raise an alarm' % (c, pid))
     known = load_known()
     known_keys = {(k['property'], k['key']): k for k in known.get('findings', [])}
     viol = [o for o in obs if o.ok is False]
